@@ -41,9 +41,15 @@ Push(s) == stack' = [stack EXCEPT ![Len(stack)].cur = Append(@, s)]
 \* deliberately analyses such statements as if control fell through; they are outside C09's grammar)
 AfterJump == Top.cur # << >> /\ Top.cur[Len(Top.cur)].k \in {"return", "raise", "break", "continue"}
 
+\* nested functions defined earlier in the current block or in an enclosing block (their definition dominates here)
+VisibleDefs == UNION {{stack[i].cur[j] : j \in {m \in 1..Len(stack[i].cur) : stack[i].cur[m].k \in {"defg", "defn"}}}
+                      : i \in 1..Len(stack)}
+
 AddSimple ==
     /\ ~done /\ nid <= MaxStmts /\ ~AfterJump
     /\ \E s \in ({[k |-> "assign", v |-> w, id |-> nid] : w \in GenVars} \cup {[k |-> "use", v |-> w, id |-> nid] : w \in GenVars}
+                 \cup {[k |-> "defg", v |-> w, id |-> nid] : w \in GenVars} \cup {[k |-> "defn", v |-> w, id |-> nid] : w \in GenVars}
+                 \cup {[k |-> "callg", t |-> d.id, v |-> d.v, w |-> d.k = "defn", id |-> nid] : d \in VisibleDefs}
                  \cup {[k |-> "return", id |-> nid], [k |-> "raise", id |-> nid], [k |-> "call", id |-> nid]}
                  \cup (IF InLoopBody THEN {[k |-> "break", id |-> nid], [k |-> "continue", id |-> nid]} ELSE {})) :
          /\ s.k \in SimpleKinds
@@ -92,8 +98,20 @@ Close ==
        IN stack' = [below EXCEPT ![Len(below)].cur = Append(@, st)]
     /\ UNCHANGED <<nid, done>>
 
+RECURSIVE HasVar(_, _, _)
+HasVar(block, kind, v) ==
+    \E i \in 1..Len(block) :
+        LET s == block[i]
+        IN \/ s.k = kind /\ s.v = v
+           \/ s.k \in {"if", "while", "for"} /\ (HasVar(s.body, kind, v) \/ HasVar(s.orelse, kind, v))
+           \/ s.k = "with" /\ HasVar(s.body, kind, v)
+           \/ s.k = "try" /\ (HasVar(s.body, kind, v) \/ HasVar(s.orelse, kind, v) \/ HasVar(s.final, kind, v)
+                              \/ \E j \in 1..Len(s.handlers) : HasVar(s.handlers[j], kind, v))
+
 Finish ==
     /\ ~done /\ Len(stack) = 1 /\ Top.cur # << >>
+    \* `nonlocal v` is a SyntaxError unless the enclosing function binds v somewhere
+    /\ \A v \in GenVars : HasVar(Top.cur, "defn", v) => HasVar(Top.cur, "assign", v)
     /\ done' = TRUE /\ UNCHANGED <<stack, nid>>
 
 GNext == AddSimple \/ Open \/ NextPart \/ Close \/ Finish
@@ -107,7 +125,7 @@ RECURSIVE UsesOf(_)
 UsesOf(block) ==
     IF block = << >> THEN {}
     ELSE LET s == Head(block)
-             here == CASE s.k = "use" -> {s.id}
+             here == CASE s.k \in {"use", "defg"} -> {s.id}
                        [] s.k \in {"if", "for"} -> UsesOf(s.body) \cup UsesOf(s.orelse)
                        [] s.k = "while" -> UsesOf(s.body) \cup UsesOf(s.orelse)
                        [] s.k = "with" -> UsesOf(s.body)
